@@ -13,6 +13,7 @@ let rec int_of_pos = function XH -> 1 | XO p -> 2 * int_of_pos p | XI p -> 2 * i
 let int_of_z = function Z0 -> 0 | Zpos p -> int_of_pos p | Zneg p -> - (int_of_pos p)
 let int_of_n = function N0 -> 0 | Npos p -> int_of_pos p
 let rec int_of_nat = function O -> 0 | S n -> 1 + int_of_nat n
+let rec nat_of_int n = if n <= 0 then O else S (nat_of_int (n - 1))
 
 let n_of_hex (s : string) : n =
   let acc = ref None in
@@ -155,6 +156,8 @@ let table_dump (t : dtable) : string =
   let l = List.sort compare l in
   String.concat "," (List.map (fun (k, c) -> Printf.sprintf "%s:%d" k c) l)
 
+let table_dump_nz (t : dtable) : string = table_dump (List.filter (fun (_, c) -> int_of_z c <> 0) t)
+
 let mode_of s = if s = "C" then CapturesOnly else AllMoves
 
 (* ---------- commands *)
@@ -276,6 +279,100 @@ let do_pos fields =
         emit "S" (Printf.sprintf "pos Ok %s counts=%s" (proj_of p) (String.concat "," (List.map string_of_int counts))))
    | _ -> emit "S" "pos Panic")
 
+(* ---------- search, time control, input cleaning *)
+let osort_of_log (log : string list array) : n -> boardState list -> boardState list =
+  fun i l ->
+    let i = int_of_n i in
+    if i >= Array.length log then stable_sort_desc l
+    else begin
+      let remaining = ref l in
+      let ok = ref true in
+      let out = List.map (fun text ->
+          let rec take acc = function
+            | [] -> ok := false; None
+            | x :: t -> if model_uci x = text then (remaining := List.rev_append acc t; Some x) else take (x :: acc) t in
+          take [] !remaining) log.(i) in
+      if !ok && !remaining = [] then List.filter_map (fun x -> x) out else stable_sort_desc l
+    end
+
+let parse_orders (s : string) : string list array =
+  if s = "" then [||]
+  else Array.of_list (List.map split_words (String.split_on_char ';' s))
+
+let do_search fields =
+  let toks = String.split_on_char ' ' (List.nth fields 1) in
+  let k = (match List.nth fields 2 with "inf" -> None | v -> Some (n_of_int (int_of_string v))) in
+  let log = parse_orders (if List.length fields > 3 then List.nth fields 3 else "") in
+  match play_out_position zt (List.map str_of_string toks) with
+  | Ok (b, t) ->
+    (match get_best_move zt (osort_of_log log) k (nat_of_int 400) b t with
+     | Ok (ev, st) ->
+       let sends = List.filter_map (function Send s -> Some (text_of_res (best_move_text s) ^ "#" ^ proj_of (abs0 s)) | Info _ -> None) ev in
+       let infos = List.filter_map (function Info l -> Some (string_of_str l) | Send _ -> None) ev in
+       let line = Printf.sprintf "search panic=0 consulted=%d sends=%s infos=%s restored=%s%s"
+           (int_of_n st.clock) (String.concat "," sends) (String.concat "|" infos)
+           (if table_dump_nz st.table = table_dump_nz t then "1" else "0")
+           (if st.sort_ok then "" else " SORT-LOG-INVALID") in
+       emit "M" line; emit "S" line
+     | Err _ -> emit "M" "search OUT-OF-FUEL"; emit "S" "search OUT-OF-FUEL"
+     | Panic _ -> emit "M" "search panic=1"; emit "S" "search panic=1")
+  | _ -> emit "M" "search PANIC"; emit "S" "search PANIC"
+
+let do_slice fields =
+  let toks = String.split_on_char ' ' (List.nth fields 1) in
+  let c = if List.nth fields 2 = "w" then White else Black in
+  match parse_go_command (List.map str_of_string toks) with
+  | Ok gt ->
+    let line = Printf.sprintf "slice wtime=%s btime=%s winc=%s binc=%s mtg=%s slice=%s"
+        (dec_of_z gt.wtime) (dec_of_z gt.btime) (dec_of_z gt.winc) (dec_of_z gt.binc)
+        (match gt.movestogo with Some m -> dec_of_z m | None -> "-") (dec_of_z (calculate_time_slice gt c)) in
+    emit "M" line; emit "S" line
+  | _ -> emit "M" "slice Panic"; emit "S" "slice Panic"
+
+let do_clean fields =
+  let s = str_of_hexlist (List.nth fields 1) in
+  let line = "clean " ^ hexlist_of_str (clean_input s) in
+  emit "M" line; emit "S" line
+
+(* ---------- oracles: shallow minimax value, mate solver *)
+let score_text (v : int) : string =
+  let mate = int_of_z mATE_SCORE and w = int_of_z mATE_WINDOW in
+  if v >= mate - w then Printf.sprintf "mate %d" ((mate - v + 1) / 2)
+  else if v <= - mate + w then Printf.sprintf "mate %d" ((mate + v) / (-2))
+  else Printf.sprintf "cp %d" v
+
+let do_oracle fields =
+  let toks = String.split_on_char ' ' (List.nth fields 1) in
+  let maxd = int_of_string (List.nth fields 2) in
+  match play_out_position zt (List.map str_of_string toks) with
+  | Ok (b, t) ->
+    let parts = ref [] in
+    for d = 1 to maxd do
+      let rv = root_values zt (nat_of_int 400) b (z_of_int d) t in
+      let vals = List.filter_map (fun (m, v) -> match v with Some v -> Some (model_uci m, int_of_z v) | None -> None) rv in
+      if List.length vals <> List.length rv || vals = [] then parts := (Printf.sprintf "d%d=?" d) :: !parts
+      else begin
+        let best = List.fold_left (fun a (_, v) -> max a v) min_int vals in
+        let arg = List.filter_map (fun (m, v) -> if v = best then Some (String.sub m 0 4) else None) vals in
+        parts := (Printf.sprintf "d%d=%s:%s" d (score_text best) (String.concat "," arg)) :: !parts
+      end
+    done;
+    let line = "oracle " ^ String.concat " " (List.rev !parts) in
+    emit "M" line; emit "S" line
+  | _ -> emit "M" "oracle PANIC"; emit "S" "oracle PANIC"
+
+let do_mate fields =
+  (* mate <position cmd> <n>: can the side to move force mate in <= n / is it mated within n *)
+  let toks = String.split_on_char ' ' (List.nth fields 1) in
+  let n = int_of_string (List.nth fields 2) in
+  match play_out_position zt (List.map str_of_string toks) with
+  | Ok (b, _) ->
+    let p = abs0 b in
+    let line = Printf.sprintf "mate in=%s mated=%s stalemate=%s checkmate=%s"
+        (b01 (mate_in (nat_of_int n) p)) (b01 (mated_in (nat_of_int n) p)) (b01 (is_stalemate p)) (b01 (is_checkmate p)) in
+    emit "M" line; emit "S" line
+  | _ -> emit "M" "mate PANIC"; emit "S" "mate PANIC"
+
 (* ---------- generation of cases from the specification (never from the model of the code) *)
 let rng = ref 12345
 let next_rand () = rng := (!rng * 1103515245 + 12345) land 0x3fffffff; (!rng lsr 8)
@@ -299,7 +396,7 @@ let move_tags (p : position) (m : move) : string list =
 
 let weight tags =
   List.fold_left (fun w t -> w + (match t with
-      | "ep" -> 30 | "castle" -> 12 | "promo" -> 8 | "capture" -> 3 | "double" -> 3 | "rookmove" -> 1 | "kingmove" -> 1 | _ -> 0)) 1 tags
+      | "ep" -> 40 | "castle" -> 25 | "promo" -> 8 | "capture" -> 3 | "double" -> 4 | "rookmove" -> 1 | "kingmove" -> 1 | _ -> 0)) 1 tags
 
 let do_playout fields =
   let fen = List.nth fields 1 in
@@ -352,7 +449,12 @@ let () =
              | "pos" -> do_pos fields
              | "playout" -> do_playout fields
              | "legal" -> do_legal fields
-             | _ -> Driver_ext.dispatch zt emit fields)
+             | "search" -> do_search fields
+             | "slice" -> do_slice fields
+             | "oracle" -> do_oracle fields
+             | "mate" -> do_mate fields
+             | "clean" -> do_clean fields
+             | _ -> emit "M" "unknown"; emit "S" "unknown")
           with e -> emit "M" ("DRIVER-EXCEPTION " ^ Printexc.to_string e); emit "S" "DRIVER-EXCEPTION");
          if Buffer.length out > 60000 then (print_string (Buffer.contents out); Buffer.clear out)
        end
